@@ -36,6 +36,7 @@ type verifClient struct {
 	userinfoAssertion bool
 	keyID             string // kid of the key registered for private_key_jwt
 	keyPub            any
+	keyPriv           any
 }
 
 func (c *verifClient) GetID() string                       { return c.id }
@@ -214,6 +215,18 @@ type verifStorage struct {
 	signPriv  any
 	signPub   any
 	signKeyID string
+
+	keyServed []string // client ids for which GetKeyByIDAndClientID handed out a key in this request
+	ccOK      []string // client ids for which ClientCredentials said yes in this request
+
+	// optional capabilities (verifStorageFull)
+	teVeto, teDefaults bool
+	teValidated        int
+	teCreatedReqs      []TokenExchangeRequest
+	devState           *DeviceAuthorizationState
+	devClient, devCode string
+	devStored          []verifDevStore
+	devLookups         []verifDevLookup
 
 	// liveness answers for token ids (userinfo / introspection)
 	userinfoCalls, introspectCalls int
@@ -453,6 +466,7 @@ func (s *verifStorage) GetKeyByIDAndClientID(ctx context.Context, keyID, clientI
 		return nil, err
 	}
 	if c := s.client(clientID); c != nil && c.keyPub != nil && keyID == c.keyID {
+		s.keyServed = append(s.keyServed, clientID)
 		return &jose.JSONWebKey{KeyID: c.keyID, Use: "sig", Key: c.keyPub}, nil
 	}
 	return nil, errors.New("key not found")
@@ -573,6 +587,12 @@ type verifCreds struct {
 
 // verifTokenRequest builds the POST to the token endpoint. form carries the grant parameters.
 func verifTokenRequest(form url.Values, cr *verifCreds, badForm bool) *http.Request {
+	return verifPostRequest("/oauth/token", form, cr, badForm)
+}
+
+// verifPostRequest builds a POST to an endpoint of the provider. cr.mode: 0 none, 1 Basic, 2 Basic with a
+// malformed percent-escape, 3 client_secret in the form, 4 client_assertion (+ type) in the form.
+func verifPostRequest(path string, form url.Values, cr *verifCreds, badForm bool) *http.Request {
 	user, pass, has := "", "", false
 	switch cr.mode {
 	case 1:
@@ -581,12 +601,11 @@ func verifTokenRequest(form url.Values, cr *verifCreds, badForm bool) *http.Requ
 		user, pass, has = "%zz"+cr.id, cr.secret, true
 	case 3:
 		form.Set("client_secret", cr.secret)
-	}
-	if cr.assertion != "" || cr.atype != "" {
+	case 4:
 		form.Set("client_assertion", cr.assertion)
 		form.Set("client_assertion_type", cr.atype)
 	}
-	return verifWithIssuer(nd.Request("POST", "/oauth/token", form, user, pass, has, badForm))
+	return verifWithIssuer(nd.Request("POST", path, form, user, pass, has, badForm))
 }
 
 func verifSetupSigning(st *verifStorage, alg string) {
